@@ -122,6 +122,16 @@ def coq_make(ctx, timeout=1500):
         return rc == 0, out
 
 
+def coqchk(ctx, module, timeout=2400):
+    """independent re-check of the compiled property module and everything it depends on
+    (thorough tier); returns (ok, summary text)"""
+    with Lock('coq'):
+        rc, out = run(['coqchk', '-silent', '-o', '-Q', COQ, 'VQ', 'VQ.' + module], cwd=ctx.work, timeout=timeout)
+    summ = out[out.find('CONTEXT SUMMARY'):] if 'CONTEXT SUMMARY' in out else out[-1500:]
+    ok = rc == 0 and 'Axioms: <none>' in out and 'type-in-type: <none>' in out and 'positivity is assumed: <none>' in out
+    return ok, ' '.join(summ.split())[:1200]
+
+
 def coq_failed_file(log):
     m = re.search(r'File "\./([^"]+)", line (\d+)', log)
     return (m.group(1), int(m.group(2))) if m else (None, None)
